@@ -16,11 +16,12 @@ import (
 )
 
 type Conn struct {
-	C      net.Conn
-	buf    []byte
-	Cancel context.CancelFunc
-	Mgr    *server.Manager
-	R      *rand.Rand // when set, requests are written in random-sized chunks
+	C         net.Conn
+	buf       []byte
+	Cancel    context.CancelFunc
+	Mgr       *server.Manager
+	R         *rand.Rand // when set, requests are written in random-sized chunks
+	SkipExtra bool       // do not wait 2 ms for stray bytes after the last reply
 }
 
 // NewPipe starts Manager.Handle on one end of a net.Pipe for a fresh Manager with ndb databases.
@@ -35,6 +36,18 @@ func AttachPipe(mgr *server.Manager) *Conn {
 	ctx, cancel := context.WithCancel(context.Background())
 	a, b := net.Pipe()
 	go mgr.Handle(ctx, b)
+	return &Conn{C: a, Cancel: cancel, Mgr: mgr}
+}
+
+// NewClusterPipe serves a fresh single-database Manager through the REAL cluster connection handler and apply
+// loop (server.VerifLocalCluster: only the Raft layer is replaced by a marshal/unmarshal loop).
+func NewClusterPipe() *Conn {
+	impl.Init(0)
+	mgr := server.NewManager(&config.Config{Databases: 1})
+	ctx, cancel := context.WithCancel(context.Background())
+	serve := server.VerifLocalCluster(ctx, mgr)
+	a, b := net.Pipe()
+	go serve(b)
 	return &Conn{C: a, Cancel: cancel, Mgr: mgr}
 }
 
@@ -117,6 +130,10 @@ func (c *Conn) Batch(cmds [][][]byte, timeout time.Duration) Result {
 		}
 	}
 	c.buf = c.buf[pos:]
+	if c.SkipExtra {
+		<-done
+		return res
+	}
 	// anything beyond the last reply? (a reply written in two values, a stray write)
 	c.C.SetReadDeadline(time.Now().Add(2 * time.Millisecond))
 	n, _ := c.C.Read(tmp)
